@@ -32,19 +32,25 @@
 // case prints VERIF-KNOWN key=D-C18-short while it reproduces. With VERIF_C18_ASSUME_FIXED=1
 // nothing is excluded.
 //
-// Sensitivity (scratch worktree, quick tier, each one made `./check C18` exit 1):
+// Sensitivity (scratch worktree = HEAD + proposed fix, VERIF_C18_ASSUME_FIXED=1, quick tier; "caught"
+// = `./check C18` exit 1 with the named signature; the unmutated worktree exits 0):
 //
-//	default timeout 3000 -> 0                       caught (parse: field:timeout)
-//	weightType != 0 && weight > 100  ->  >= 100     EQUIVALENT mutant (100 -> 100), not detectable;
-//	  replaced by  > 100 -> > 101                   caught (parse: field:weight)
-//	  and          weight == -1 -> weight == 0      caught (parse: field:weight)
-//	drop SetId in Tars2endpoint                     caught (registry: f2e:setid)
-//	drop SetId in Endpoint2tars                     caught (registry: e2f:setid)
-//	swap Grid/Qos in Endpoint2tars                  caught (parse: roundtrip / registry: e2f)
-//	String()/Key without the port                   caught (key-collision)
-//	-e parsed into qos                              caught (parse: field:qos / field:auth)
-//	ssl keeps proto "ssl"                           caught (parse: field:proto)
-//	revert of the proposed fix with ASSUME_FIXED=1  caught (malformed-exhaustive: panic)
+//	default timeout 3000 -> 0                       caught (parse field:timeout, list list-endpoint)
+//	weightType != 0 && weight > 100  ->  >= 100     EQUIVALENT mutant (100 is mapped to 100): exit 0,
+//	                                                not detectable by any oracle; replaced by
+//	  > 100 -> > 101                                caught (parse field:weight, "-w 101 -v 1")
+//	  weight == -1 -> weight == 0                   caught (parse field:weight)
+//	  `weightType != 0 &&` dropped                  caught (parse field:weight, Parse("tcp") weight 100)
+//	drop SetId in Tars2endpoint                     caught (registry f2e:setid)
+//	drop SetId in Endpoint2tars                     caught (registry e2f:setid)
+//	swap Grid/Qos in Endpoint2tars                  caught (parse roundtrip:grid, registry e2f:grid)
+//	String()/Key without the port                   caught (parse + registry key-collision)
+//	-e parsed into qos                              caught (parse field:qos)
+//	-b parsed into host                             caught (parse field:bind)
+//	ssl keeps proto "ssl"                           caught (parse field:proto)
+//	Tars2endpoint names udp endpoints "tcp"         caught (parse + registry key-registry)
+//	revert either half of the proposed fix          caught (malformed-exhaustive-short, pinned,
+//	                                                malformed, list: panic)
 package c18
 
 import (
